@@ -1,5 +1,5 @@
 (* C14 -- Graphs returned by the parsers are closed and consistently linked. *)
-From Fences Require Import GraphSpec GraphLinks GraphOps GraphResolve GraphOptLinks Regex Grammar GrammarLinks.
+From Fences Require Import GraphSpec GraphLinks GraphOps GraphResolve GraphOptLinks Regex Grammar GrammarLinks RegexLinks.
 
 (* add_transition keeps both directions in step: every graph built with the public API records
    each parent/child link on both ends with the right child index *)
@@ -78,3 +78,14 @@ Theorem C14_grammar_output : forall fuel G start st r,
     is_ref (b_graph st) x = false.
 Proof. exact parse_grammar_links. Qed.
 Print Assumptions C14_grammar_output.
+
+(* The regex front end, for every expression of the dialect: the converters build a table that is linked on both ends
+   throughout; after optimize() and the input / super-root / output nodes every node reachable from the root of the
+   graph parse_regex returns passes both checks of check_consistency. *)
+Theorem C14_regex_output : forall fuel r st root,
+  parse_regex fuel r = Ok (st, root) ->
+  forall x, reach (b_graph st) root x ->
+    (forall s i, In (s, i) (ins_of (b_graph st) x) -> is_dec (b_graph st) s = true /\ nth_error (outs_of (b_graph st) s) i = Some x) /\
+    (forall i t, nth_error (outs_of (b_graph st) x) i = Some t -> In (x, i) (ins_of (b_graph st) t)).
+Proof. exact parse_regex_links. Qed.
+Print Assumptions C14_regex_output.
